@@ -4,6 +4,7 @@ from ir import Inst, Arg, Const, Null, GlobalRef, FuncRef, CExpr, strip_casts, a
 from effects import indirect_kind, ALLOC_GLOBALS
 import rules
 import tables
+import paths as _P13
 
 ALLOC_FREE_SURFACE_PREFIXES = ("cbor_encode_", "_cbor_encode_", "cbor_serialize_")
 ALLOC_FREE_SURFACE = ("cbor_stream_decode", "cbor_serialize", "cbor_serialized_size", "_cbor_encoded_header_size")
@@ -187,7 +188,7 @@ def run(ctx, chk):
         facts established at its call sites are inherited"""
         root, steps = item_path
         own = [a for a in H.get(f.name, []) if root[0] == "arg" and a.get("param") == root[1] and a.get("entry", True)]
-        if root[0] == "arg" and not steps and f.internal and not own and depth < 3:
+        if root[0] == "arg" and not steps and _P13.is_helper(prog, f) and not own and depth < 3:
             acc = set()
             found = False
             for g in prog.lib_funcs():
@@ -218,7 +219,7 @@ def run(ctx, chk):
                     continue
                 break
             h = prog.funcs.get(c.callee) if c.op == "call" and c.callee else None
-            if h is None or not h.internal:
+            if h is None or not _P13.is_helper(prog, h):
                 break
             rets = {apath(i.operands[0]) for i in h.all_insts() if i.op == "ret" and i.operands}
             if len(rets) != 1:
@@ -232,7 +233,7 @@ def run(ctx, chk):
 
     def classify_location(f, root, steps, depth=0):
         """(ok, why) for a block pointer read from the memory location root/steps (an access path in f)"""
-        if root[0] == "arg" and f.internal and depth < 3:
+        if root[0] == "arg" and _P13.is_helper(prog, f) and depth < 3:
             # a location reached through a parameter of a unit-internal helper: judged at every call site, with the
             # caller's argument substituted for the parameter
             sites = [(g, c) for g in prog.lib_funcs() for c in g.calls(f.name)]
@@ -372,7 +373,7 @@ def run(ctx, chk):
             if root[0] == "inst" and f.insts[root[1]].op == "alloca" and ("load",) not in steps:
                 return []     # a local variable
             return [(f, v0)]
-        if isinstance(v0, Arg) and f.internal and depth < 3:
+        if isinstance(v0, Arg) and _P13.is_helper(prog, f) and depth < 3:
             out = []
             for g in prog.lib_funcs():
                 for c in g.calls(f.name):
